@@ -2,6 +2,7 @@
 # seedverify.sh <id>: independent confirmation of a seeded change in its scratch worktree /tmp/wt_<id>:
 # demo passes without the patch, fails with it; the touched packages still build and their existing tests pass.
 id=$1; wt=/tmp/wt_$id; sd=/tmp/seed_$id
+if [ -d $sd/pkg ]; then :; fi
 export GOFLAGS=-mod=mod GOPROXY=off GOSUMDB=off
 cd $wt || exit 2
 git checkout -q -- . ; git clean -fdq
